@@ -160,10 +160,12 @@ func (wd *World) runOp(op Op) {
 		q.addsInvoked++
 		h, ok := q.add(s.N, s.Prio, s.ID)
 		c.OK = ok
+		s.AddOK = 2
+		if ok {
+			s.AddOK = 1
+		}
 		if !s.AcceptKnown {
 			s.AcceptKnown, s.Accepted = true, ok
-		} else if s.Accepted != ok {
-			c.Str = "add-result-mismatch"
 		}
 		s.h = h
 		r.end(c)
